@@ -240,13 +240,13 @@ def validate_evidence(ev):
 _LINEBREAKS = set('  ')   # \n \r \x0b \x0c \x1c \x1d \x1e \x85 are modelled
 
 
-def unmodelled_char(ch):
+def unmodelled_char(ch, case=True):
     o = ord(ch)
     if o < 128: return False
     if 0xD800 <= o <= 0xDFFF: return True
     if ch in ('\xa0', '\x85'): return False
-    return ch.isdecimal() or ch.isdigit() or ch.isnumeric() or ch.isspace() or ch in _LINEBREAKS or ch.lower() != ch or ch.upper() != ch
+    return ch.isdecimal() or ch.isdigit() or ch.isnumeric() or ch.isspace() or ch in _LINEBREAKS or (case and (ch.lower() != ch or ch.upper() != ch))
 
 
-def unmodelled_text(*texts):
-    return any(unmodelled_char(ch) for t in texts if t for ch in t)
+def unmodelled_text(*texts, case=True):
+    return any(unmodelled_char(ch, case) for t in texts if t for ch in t)
